@@ -208,6 +208,19 @@ def run(ctx: Ctx):
             do_from_dfa(ctx, gen.rand_dfa(rng, 6), "random")
 
 
+def search(ctx: Ctx):
+    rng = ctx.rng
+    opts = [(r, m) for r in (False, True) for m in (False, True)]
+    for _ in range(ctx.budget(10000, 60000)):
+        if ctx.n_prop_fails:
+            return
+        N = junk_row_nfa(rng) if rng.random() < 0.15 else gen.rand_nfa(rng, 6)
+        for r, m in opts:
+            do_from_nfa(ctx, N, r, m, "search")
+        do_elim(ctx, N, "search")
+        do_from_dfa(ctx, gen.rand_dfa(rng, 6), "search")
+
+
 def replay(ctx: Ctx, path: str) -> int:
     data = json.load(open(path))
     rp = data.get("replay", data)
